@@ -11,7 +11,7 @@ def main():
     checks = []
     for pid in ALL:
         cls = props.REGISTRY.get(pid)
-        if cls is None:
+        if cls is None or not os.path.exists(os.path.join(VERIF, "coq", "Properties", pid + ".v")):
             continue
         checks.append({
             "property_id": pid,
@@ -25,7 +25,7 @@ def main():
             "technique": cls.technique,
         })
     na = [{"property_id": pid, "reason": props.NOT_YET.get(pid, "check not built yet in this round; planned per DESIGN.md section 8")}
-          for pid in ALL if pid not in props.REGISTRY]
+          for pid in ALL if pid not in [c["property_id"] for c in checks]]
     m = {
         "version": 1,
         "setup_cmd": "./setup",
